@@ -6,11 +6,27 @@
 package sched
 
 import (
+	"bytes"
 	"fmt"
+	"runtime"
+	"strconv"
+	"strings"
 	"sync"
 	"testing/synctest"
 	"time"
 )
+
+// goid returns the id of the calling goroutine (parsed from its stack header; test-harness use only).
+func goid() uint64 {
+	var buf [64]byte
+	n := runtime.Stack(buf[:], false)
+	f := bytes.Fields(buf[:n])
+	if len(f) < 2 {
+		return 0
+	}
+	id, _ := strconv.ParseUint(string(f[1]), 10, 64)
+	return id
+}
 
 type waiter struct {
 	point string
@@ -37,15 +53,43 @@ type Sched struct {
 	OnStep func(step int)
 	// Steps counts releases performed.
 	Steps int
+	// locked holds the goroutines that are inside a critical section announced by the marker points
+	// "<x>:locked" / "<x>:unlocking". A goroutine parked while it holds a mutex that another goroutine
+	// needs would leave that goroutine blocked non-durably and synctest.Wait would never return, so such
+	// a goroutine is never parked.
+	locked map[uint64]int
+	// SkippedLocked counts yield points passed without parking for that reason.
+	SkippedLocked int
 }
 
 // New returns an active scheduler.
-func New() *Sched { return &Sched{} }
+func New() *Sched { return &Sched{locked: map[uint64]int{}} }
 
 // Yield parks the calling goroutine until the controller releases it.
 func (s *Sched) Yield(point string) {
 	s.mu.Lock()
 	if s.off {
+		s.mu.Unlock()
+		return
+	}
+	switch {
+	case strings.HasSuffix(point, ":locked"):
+		s.locked[goid()]++
+		s.mu.Unlock()
+		return
+	case strings.HasSuffix(point, ":unlocking"):
+		id := goid()
+		if s.locked[id] > 0 {
+			s.locked[id]--
+		}
+		if s.locked[id] == 0 {
+			delete(s.locked, id)
+		}
+		s.mu.Unlock()
+		return
+	}
+	if len(s.locked) > 0 && s.locked[goid()] > 0 {
+		s.SkippedLocked++
 		s.mu.Unlock()
 		return
 	}
